@@ -17,6 +17,7 @@ import (
 	"verifharness/mc"
 	"verifharness/props/c10"
 	"verifharness/props/reg"
+	"verifharness/sched"
 )
 
 func init() { reg.Register(&reg.Prop{ID: "C09", Run: Run, Replay: Replay}) }
@@ -828,6 +829,9 @@ func Run(r *mc.Run) {
 		return true
 	})
 
+	// the same entry points called at the same time on independent inputs: every schedule of small thread programs (instrumented build)
+	sched.Explore(r, "concurrent-calls", ConcurrentPrograms())
+
 	typesScenario(r)
 	longScenario(r)
 	shapeScenario(r)
@@ -997,6 +1001,9 @@ func Run(r *mc.Run) {
 }
 
 func Replay(scenario string, raw json.RawMessage) []*mc.Violation {
+	if scenario == "concurrent-calls" {
+		return sched.Replay(scenario, ConcurrentPrograms(), raw)
+	}
 	if scenario == "decode-into-reused-struct" {
 		var in TwiceIn
 		if mc.UnmarshalInput(raw, &in) == nil {
